@@ -75,6 +75,8 @@ def build(case):
     # non-finite samples in a template must stay where they are; only in uncurated merges (with curated clusters
     # load_model itself refuses such templates, merged or not: outside the statement)
     nonfinite = int(rng.integers(0, k)) if rng.random() < 0.15 else -1
+    own_probe_tables = bool(rng.random() < 0.25)       # the inputs carry a channel_probe.npy of their own (it says nothing about the merge)
+    same_dat_name = [None, None, 'recording.bin', ['recording.bin']][int(rng.integers(0, 4))]     # the same raw file NAME in every folder
     if case.get('finite_only'):
         nonfinite = -1            # (C13/C14 export amplitudes, which non-finite templates leave undefined)
     specs = []
@@ -90,7 +92,9 @@ def build(case):
                         dtype_ids=['int32', 'uint32', 'int64', 'uint16'][int(rng.integers(0, 4))] if not huge else 'int64',
                         dtype_times=['uint64', 'int64'][int(rng.integers(0, 2))],
                         spikeless=['none', 'none', 'middle', 'last'][int(rng.integers(0, 4))],
-                        ncdat_extra=int(rng.integers(0, 3)), permute_map=bool(rng.integers(0, 2)))
+                        ncdat_extra=int(rng.integers(0, 3)), permute_map=bool(rng.integers(0, 2)), probes=own_probe_tables)
+        if same_dat_name is not None:
+            s.notes['dat_path_literal'] = same_dat_name
         s.positions = s.positions - s.positions.min(axis=0)        # non-negative coordinates
         if rng.random() < 0.25:
             s.notes['fortran'] = 'all'            # column-major .npy files (MATLAB exporters), in any probe incl. the first
